@@ -119,6 +119,13 @@ package loading
 //@   pure
 //@   ghostset loaderErrorPending := err != nil
 
+// C16: every file name a loader claims reaches the loaders: the directory walk is started without a file-name filter
+// (spawn precondition of the walker's Start, specs/60_walker.spec).
+//@ func LoadPackages(ctx, startDir) (pkgs, err)
+//@   requires [no_loader_error_pending_at_the_start] !loaderErrorPending
+//@ loop #1
+//@   invariant [still_nothing_pending] !loaderErrorPending
+
 //@ func LoadPackages$1(err) ()
 //@   trusted
 //@   pure
